@@ -1,5 +1,5 @@
 import OtelVerif.Common.Line
-import OtelVerif.Model.C05
+import OtelVerif.Model.C05Src
 /-! driver for C05: models `c05-retry` (retry loop), `c05-err` (error-chain classification), `c05-validate` -/
 open OtelVerif OtelVerif.Line OtelVerif.C05
 
@@ -231,20 +231,41 @@ def validateHandler : Handler Unit where
         let r : RawCfg := { enabled := en, initial := i, maxInt := mi, maxElapsed := me, mulNum := mn, mulDen := md, rfNum := rn, rfDen := rd, timeout := to }
         (s, [s!"obs valid {validateBackoff r} {b01 (validateTimeout r)}"])
       | _, _, _, _, _, _, _, _, _ => (s, ["obs bad-op"])
+    | ["defaults"] =>
+      -- the REGENERATED NewDefaultBackOffConfig / NewDefaultTimeoutConfig, judged by the model's validate
+      let r := defaultRaw
+      (s, [s!"obs defaults en={b01 r.enabled} init={r.initial} maxint={r.maxInt} maxel={r.maxElapsed} mnum={r.mulNum} mden={r.mulDen} rfnum={r.rfNum} rfden={r.rfDen} timeout={r.timeout} valid={validateBackoff r} {b01 (validateTimeout r)}"])
     | _ => (s, ["obs bad-op"])
 
-def grpcHandler : Handler Unit where
-  init := ()
+structure GS where
+  expect : Option (String × Nat) := none
+  fails : List String := []
+
+def grpcHandler : Handler GS where
+  init := {}
   onOp := fun s toks =>
     match toks with
     | "grpc" :: t =>
       match kvNat t "code", (kv t "ri").bind optNat with
       | some code, some ri =>
-        match grpcProcess code ri with
-        | none => (s, ["obs out nil=1 perm=0 th=-"])
-        | some e => (s, [s!"obs out nil=0 perm={b01 e.isPermanent} th={showOptNat e.throttleDelay}"])
+        let line := match grpcProcess code ri with
+          | none => "obs out nil=1 perm=0 th=-"
+          | some e => s!"obs out nil=0 perm={b01 e.isPermanent} th={showOptNat e.throttleDelay}"
+        ({ s with expect := some (line, code) }, [line])
       | _, _ => (s, ["obs bad-op"])
     | _ => (s, ["obs bad-op"])
+  onObs := fun s toks =>
+    -- the OTLP/gRPC retryability table (grpcRetryable = the regenerated shouldRetry on /repo, C05_src_grpc_retryable) and
+    -- the hand-over of RetryInfo: what processError returns for a status must be what the specification's table says
+    match toks, s.expect with
+    | _ :: "out" :: rest, some (line, code) =>
+      if "obs out " ++ " ".intercalate rest = line then { s with expect := none }
+      else { s with expect := none, fails := s.fails ++ [s!"C05/otlp-grpc/status-not-classified-per-otlp-table code={code} got={" ".intercalate rest}"] }
+    | _, _ => s
+  onEnd := fun s =>
+    match s.fails with
+    | [] => ["prop grpc=ok"]
+    | f :: more => [s!"prop grpc=FAIL sig={f} more={more.length}"]
 
 end OtelVerif.Drivers.C05
 
